@@ -400,7 +400,7 @@ func (t *Thread) body() {
 				case *goPanic:
 					ev.kind, ev.pan = 4, x
 				case *unsupported:
-					ev.kind, ev.msg = 5, x.msg
+					ev.kind, ev.msg = 5, x.msg+" (in "+shortFn(t.where)+")"
 				default:
 					ev.kind, ev.msg = 5, fmt.Sprintf("engine panic: %v\n%s", r, stackTrace())
 				}
